@@ -254,7 +254,14 @@ void splinetable<Alloc>::read_fits_data(fitsfile* fits, const std::string& fileP
 					size_t last=stored.size();
 					if(last>1 && stored[last-1]=='\'') //remove a trailing quote also
 						last--;
-					stored=stored.substr(1,last-1);
+					std::string unquoted;
+					for(size_t k=1; k<last; k++){
+						unquoted+=stored[k];
+						//a quote inside a FITS string is written as two
+						if(stored[k]=='\'' && k+1<last && stored[k+1]=='\'')
+							k++;
+					}
+					stored=unquoted;
 				}
 				
 				size_t keylen = strlen(key) + 1;
